@@ -103,12 +103,13 @@ func (v c14Var) mayBeUndefined(prefs bool) bool {
 }
 
 var (
-	c14ReIdent   = regexp.MustCompile(`^[+\-.\w]+$`)
-	c14ReVersion = regexp.MustCompile(`^\d[\w.]*$`)
-	c14ReYesNo   = regexp.MustCompile(`^(?:YES|yes|NO|no)$`)
-	c14ReInteger = regexp.MustCompile(`^\d+$`)
-	c14ReOption  = regexp.MustCompile(`^[a-z][-0-9a-z_+]*$`)
-	c14ReDigits  = regexp.MustCompile(`^\d+\.?\d*$`)
+	c14ReIdent         = regexp.MustCompile(`^[+\-.\w]+$`)
+	c14ReVersion       = regexp.MustCompile(`^\d[\w.]*$`)
+	c14ReYesNo         = regexp.MustCompile(`^(?:YES|yes|NO|no)$`)
+	c14ReInteger       = regexp.MustCompile(`^\d+$`)
+	c14ReOption        = regexp.MustCompile(`^[a-z][-0-9a-z_+]*$`)
+	c14ReHexFloatNoExp = regexp.MustCompile(`^[+-]?0[xX][0-9a-fA-F]*\.[0-9a-fA-F]*$`)
+	c14ReDigits        = regexp.MustCompile(`^\d+\.?\d*$`)
 )
 
 func c14WordAdmitted(kind, w string) bool {
@@ -327,7 +328,7 @@ var c14Patterns = []string{
 	// literals that look like numbers
 	"0", "1", "10", "16", "00", "0.0", "1.0", "1e1", "0e0", "0x10", "0x0", "-1", "+1", "+0", ".5", ".0", "1.", "1e", "0X10",
 	// globs
-	"al*", "*", "?lpha", "[a-f]*", "[0-9]*", "[0-9].*", "[1-9]", "*.c", "0x0.?", "1e?", "*[0-9]", "[ab]lpha",
+	"al*", "*", "?lpha", "[a-f]*", "[0-9]*", "[0-9].*", "[1-9]", "*.c", "0x0.?", "1e?", "*[0-9]", "[ab]lpha", "0x[0-9].", "0x[0-9].[0-9]",
 	// yes/no classes and near misses
 	"[yY][eE][sS]", "[Yy][Ee][Ss]", "[nN][oO]", "[Nn][Oo]", "[yY][eE][s]", "[yY]", "[yY][eE][sS]*", "[yY][Ee][sS]", "[yy][eE][sS]",
 	// empty
@@ -365,6 +366,8 @@ func c14ValClass(v *string, num map[string]int) string {
 		return "empty"
 	case len(strings.Fields(*v)) > 1:
 		return "several-words"
+	case num[strings.TrimSpace(*v)] == 2 && c14ReHexFloatNoExp.MatchString(strings.TrimSpace(*v)):
+		return "number-zero-hexfloat" // 0x0.0, 0x0. : a number only for strtod, not in C source syntax
 	case num[strings.TrimSpace(*v)] == 2:
 		return "number-zero"
 	case num[strings.TrimSpace(*v)] == 1:
@@ -630,9 +633,9 @@ func (st *c14State) cause(c *c14Case, kind, from string, v *string) string {
 		switch {
 		case !positive && vc == "empty":
 			return kind + "/N/empty-value"
-		case pc == "numeric-literal-unquoted" && (vc == "number" || vc == "number-zero" || vc == "empty" || vc == "undefined"):
+		case pc == "numeric-literal-unquoted" && (vc == "number" || strings.HasPrefix(vc, "number-zero") || vc == "empty" || vc == "undefined"):
 			return kind + "/" + mn + "/unquoted-numeric-literal"
-		case bare && vc == "number-zero":
+		case bare && strings.HasPrefix(vc, "number-zero"):
 			return kind + "/" + mn + "/bare-zero-value"
 		}
 	}
@@ -850,6 +853,10 @@ func c14Exhaustive(thorough bool) []c14Spec {
 					for _, pos := range []bool{true, false} {
 						for _, f := range forms {
 							add(c14Spec{sh, f, p, pos, "", tag, def, true, 0})
+							if sh == "defined-and" {
+								// a default value in :U makes the expression non-empty although the variable is undefined
+								add(c14Spec{sh, f, p, pos, "Ualpha", tag, def, true, 0})
+							}
 						}
 					}
 				}
@@ -1185,7 +1192,13 @@ func runC14(ctx *Ctx) *Result {
 		}
 	}
 	// coverage floors: every rewrite kind the property names must have been exercised
-	if res.Broken == "" && len(res.Violations) == 0 {
+	unexplained := 0
+	for _, v := range res.Violations {
+		if !v.FoundInput {
+			unexplained++
+		}
+	}
+	if res.Broken == "" && unexplained == 0 {
 		for _, fl := range []struct {
 			key string
 			min int
